@@ -14,6 +14,7 @@ AnnP(s, t) == Len(t.ann) > Len(s.ann) =>
                  /\ Last(t.ann) = Len(t.chain) /\ Last(t.annb) = Last(t.chain)
 ConvP(i) == (Tr[i].fin /\ ~Tr[i].adv) => ConvergedP(St(i))
 PanicP(i) == ~(Len(Tr[i].skip) >= 5 /\ SubSeq(Tr[i].skip, 1, 5) = "PANIC")
+LoadOKP(i) == ~(Len(Tr[i].skip) >= 11 /\ SubSeq(Tr[i].skip, 1, 11) = "LOAD FAILED")
 QuietP(i) == Tr[i].fin => (St(i).net = <<>> /\ St(i).out = <<>> /\ St(i).infl.pc = "idle")
 
 F(name, X) == {<<name, i>> : i \in X}
@@ -28,6 +29,7 @@ Bad == F("Linked", {j \in Lines : ~LinkedP(St(j))})
   \cup F("Convergence", {j \in Lines : ~ConvP(j)})
   \cup F("Quiescent", {j \in Lines : ~QuietP(j)})
   \cup F("NoPanic", {j \in Lines : ~PanicP(j)})
+  \cup F("LoadOK", {j \in Lines : ~LoadOKP(j)})
 
 ASSUME JsonSerialize("props_result.json", [lines |-> Len(Tr), bad |-> Bad])
 PNext == UNCHANGED vars
